@@ -32,85 +32,55 @@ func encObs(obs []jobctl.Obs) []int64 {
 	return w.T
 }
 
-func resOf(rl *v1.ResourceList) []int64 {
-	if rl == nil {
-		return []int64{0, 0, 0}
+func pgOpt(w *jobctl.W, fields []int64) {
+	if fields == nil {
+		w.Z(0)
+	} else {
+		w.Z(1)
+		w.Z(fields...)
 	}
-	get := func(n v1.ResourceName) int64 {
-		q, ok := (*rl)[n]
-		if !ok {
-			return 0
-		}
-		if n == v1.ResourceCPU {
-			return q.MilliValue()
-		}
-		return q.Value()
-	}
-	mem := get(v1.ResourceMemory)
-	if mem%(1<<20) != 0 {
-		panic("memory left the Mi grid")
-	}
-	return []int64{get(v1.ResourcePods), get(v1.ResourceCPU), mem >> 20}
 }
 
-func pcCode(name string) int64 {
-	if name == "" {
-		return 0
-	}
-	k, err := strconv.ParseInt(strings.TrimPrefix(name, "pc"), 10, 64)
-	if err != nil {
-		panic("unexpected priority class " + name)
-	}
-	return k
-}
-
-func encPG(pg *scheduling.PodGroup) []int64 {
-	if len(pg.Spec.SubGroupPolicy) != 0 {
-		panic("SubGroupPolicy although no task has a partition policy")
-	}
-	out := []int64{int64(pg.Spec.MinMember)}
-	type kv struct{ k, v int64 }
-	var kvs []kv
-	for n, v := range pg.Spec.MinTaskMember {
-		kvs = append(kvs, kv{jobctl.TaskID(n), int64(v)})
-	}
-	for i := range kvs {
-		for j := i + 1; j < len(kvs); j++ {
-			if kvs[j].k < kvs[i].k {
-				kvs[i], kvs[j] = kvs[j], kvs[i]
-			}
-		}
-	}
-	out = append(out, int64(len(kvs)))
-	for _, e := range kvs {
-		out = append(out, e.k, e.v)
-	}
-	out = append(out, pcCode(pg.Spec.PriorityClassName))
-	return append(out, resOf(pg.Spec.MinResources)...)
+// selector 4 observations (for the laws)
+var lastPG struct {
+	in            []int64
+	before, after []int64
+	err           bool
+	listerFresh   bool
+	finalSpec     []int64
+	finalPrio     int64
 }
 
 func run(sel int, in []int64) []int64 {
 	e := jobctl.Get()
 	switch sel {
-	case 1:
+	case 1, 5:
 		h := (&jobctl.R{T: in}).History()
 		ns, obs := e.Run(h)
 		defer e.Cleanup(ns)
 		lastIn, lastHist, lastObs = in, h, obs
+		if sel == 5 {
+			return []int64{1}
+		}
 		return encObs(obs)
 	case 3:
 		r := &jobctl.R{T: in}
 		sp := r.Spec()
 		j := jobctl.NewJob("nsr")
 		j.Spec = jobctl.GoSpec(sp)
-		return resOf(e.Ctl.VerifCalcPGMinResources(j))
+		return jobctl.ResOf(e.Ctl.VerifCalcPGMinResources(j))
 	case 4:
 		r := &jobctl.R{T: in}
 		p0 := r.Z()
+		i0 := r.I
 		s0 := r.Spec()
-		upd := r.B()
+		i1 := r.I
+		mode := r.Z()
 		p1 := r.Z()
+		i2 := r.I
 		s1 := r.Spec()
+		i3 := r.I
+		fail := r.Z()
 		ns := e.Setup(jobctl.History{Spec: s0, Status: jobctl.Status{TscNil: true}})
 		defer e.Cleanup(ns)
 		j := e.APIJob(ns).DeepCopy()
@@ -118,19 +88,43 @@ func run(sel int, in []int64) []int64 {
 		if err := e.Ctl.VerifCreateOrUpdatePodGroup(j); err != nil {
 			panic(err)
 		}
-		if upd {
-			e.SyncPodGroup(ns)
+		lastPG.in, lastPG.listerFresh, lastPG.err = in, true, false
+		lastPG.finalSpec, lastPG.finalPrio = in[i0:i1], p0
+		lastPG.before = jobctl.EncPG(e.APIPodGroup(ns))
+		failed := false
+		if mode != 0 {
+			switch mode {
+			case 1:
+				e.SyncPodGroup(ns)
+			case 2: // the lister has not seen the PodGroup yet
+				lastPG.listerFresh = false
+			default: // the lister still shows a PodGroup that is gone from the API server
+				e.SyncPodGroup(ns)
+				if err := e.VC.Tracker().Delete(jobctl.PGGVR, ns, jobctl.PGName()); err != nil {
+					panic(err)
+				}
+				lastPG.listerFresh = false
+				lastPG.before = nil
+			}
+			e.BeginStep()
+			e.FailPgCreate, e.FailPgUpdate = int(fail), int(fail)
 			j.Spec = jobctl.GoSpec(s1)
 			j.Spec.PriorityClassName = jobctl.PCName(p1)
-			if err := e.Ctl.VerifCreateOrUpdatePodGroup(j); err != nil {
-				panic(err)
+			failed = e.Ctl.VerifCreateOrUpdatePodGroup(j) != nil
+			lastPG.finalSpec, lastPG.finalPrio = in[i2:i3], p1
+		}
+		lastPG.err = failed
+		w := &jobctl.W{}
+		w.B(failed)
+		lastPG.after = nil
+		if pg := e.APIPodGroup(ns); pg != nil {
+			if !jobctl.PGMetaOK(pg) {
+				panic("PodGroup queue / owner reference / sub-group policy does not mirror the job")
 			}
+			lastPG.after = jobctl.EncPG(pg)
 		}
-		pg := e.APIPodGroup(ns)
-		if pg.Spec.Queue != jobctl.QueueName || len(pg.OwnerReferences) != 1 || pg.OwnerReferences[0].UID != jobctl.JobUID {
-			panic("PodGroup queue / owner reference does not mirror the job")
-		}
-		return encPG(pg)
+		pgOpt(w, lastPG.after)
+		return w.T
 	}
 	panic("unknown selector")
 }
@@ -164,10 +158,11 @@ func taskNum(s string) int64 {
 	return atoi(s[1:])
 }
 
-func markerCase(ns string, p *v1.Pod, ver, retry int64) []int64 {
+func markerCase(ns string, p *v1.Pod, ver, retry int64, uid string) []int64 {
+	pgName := jobctl.JobName + "-" + uid
 	t, i := jobctl.PodID(p.Name)
 	owner := false
-	if c := metav1.GetControllerOf(p); c != nil && c.UID == jobctl.JobUID && c.Kind == "Job" && c.Name == jobctl.JobName &&
+	if c := metav1.GetControllerOf(p); c != nil && string(c.UID) == uid && c.Kind == "Job" && c.Name == jobctl.JobName &&
 		c.APIVersion == batch.SchemeGroupVersion.String() {
 		owner = true
 	}
@@ -175,10 +170,10 @@ func markerCase(ns string, p *v1.Pod, ver, retry int64) []int64 {
 	return []int64{t, i, ver, retry,
 		taskNum(p.Annotations[batch.TaskSpecKey]), atoi(p.Annotations[batch.TaskIndex]), atoi(p.Annotations[batch.JobVersion]),
 		atoi(p.Annotations[batch.JobRetryCountKey]), taskNum(p.Labels[batch.TaskSpecKey]), atoi(p.Labels[batch.TaskIndex]),
-		vh.B(owner), vh.B(p.Annotations[scheduling.KubeGroupNameAnnotationKey] == jobctl.PGName()),
+		vh.B(owner), vh.B(p.Annotations[scheduling.KubeGroupNameAnnotationKey] == pgName),
 		vh.B(p.Annotations[batch.JobNameKey] == jobctl.JobName && p.Labels[batch.JobNameKey] == jobctl.JobName && p.Labels[batch.JobNamespaceKey] == ns),
 		vh.B(p.Annotations[batch.QueueNameKey] == jobctl.QueueName && p.Labels[batch.QueueNameKey] == jobctl.QueueName),
-		vh.B(string(ti.Job) == ns+"/"+jobctl.PGName() && ti.TaskRole == jobctl.TaskName(t))}
+		vh.B(string(ti.Job) == ns+"/"+pgName && ti.TaskRole == jobctl.TaskName(t))}
 }
 
 func specEq(a, b jobctl.Spec) bool {
@@ -195,7 +190,7 @@ func syncReq() jobctl.Op { return jobctl.Op{Code: 1, Req: jobctl.Req{Event: 8, U
 func laws(sel int, in, got []int64, law func(lsel int, lin []int64, sig string)) {
 	e := jobctl.Get()
 	switch sel {
-	case 1:
+	case 1, 5:
 		if !sameTokens(lastIn, in) {
 			panic("laws called without the matching run")
 		}
@@ -208,7 +203,32 @@ func laws(sel int, in, got []int64, law func(lsel int, lin []int64, sig string))
 				cacheSpec = apiSpec
 			case 9:
 				apiSpec = o.Spec
+			case 10:
+				// restart: the cache is empty until the job is delivered again
+			case 11:
+				apiSpec = o.Spec
 			case 1:
+				{
+					// PodGroup laws (rich observation: PodGroup spec on the API server)
+					w := &jobctl.W{}
+					w.Spec(cacheSpec)
+					w.Req(o.Req)
+					w.B(cur.FreshBefore)
+					w.B(cur.JobFreshBefore && specEq(cacheSpec, apiSpec))
+					w.B(cur.PgFreshBefore)
+					w.B(cur.PgMetaOK)
+					w.Obs(0, prev)
+					w.Obs(1, cur)
+					pgOpt(w, cur.PgFields)
+					law(208, w.T, "")
+					w = &jobctl.W{}
+					w.B(cur.PgWriteFailed)
+					w.Obs(0, prev)
+					w.Obs(1, cur)
+					pgOpt(w, prev.PgFields)
+					pgOpt(w, cur.PgFields)
+					law(209, w.T, "")
+				}
 				if cur.FreshBefore && !cur.Err && specEq(cacheSpec, apiSpec) {
 					w := &jobctl.W{}
 					w.Spec(cacheSpec)
@@ -223,9 +243,12 @@ func laws(sel int, in, got []int64, law func(lsel int, lin []int64, sig string))
 					cacheSpec = apiSpec // the UpdateStatus response refreshes the cached job
 				}
 				for _, p := range cur.Created {
-					law(204, markerCase(p.Namespace, p, prev.Cache.Version, prev.Cache.Retry), "")
+					law(204, markerCase(p.Namespace, p, prev.Cache.Version, prev.Cache.Retry, cur.JobUID), "")
 				}
 			}
+		}
+		if sel == 5 {
+			return
 		}
 		// idempotence: resync, sync, resync, sync on the final state
 		h2 := h
@@ -274,23 +297,17 @@ func laws(sel int, in, got []int64, law func(lsel int, lin []int64, sig string))
 	case 3:
 		law(206, append(append([]int64{}, in...), got...), "")
 	case 4:
-		r := &jobctl.R{T: in}
-		p0 := r.Z()
-		i0 := r.I
-		_ = r.Spec()
-		i1 := r.I
-		upd := r.B()
-		p1 := r.Z()
-		i2 := r.I
-		_ = r.Spec()
-		var lin []int64
-		if upd {
-			lin = append(append([]int64{}, in[i2:r.I]...), p1, 1)
-		} else {
-			lin = append(append([]int64{}, in[i0:i1]...), p0, 1)
+		if !sameTokens(lastPG.in, in) {
+			panic("laws called without the matching run")
 		}
-		// after an update entries of removed tasks may stay: the law only looks at the spec's tasks
-		law(205, append(lin, got...), "")
+		w := &jobctl.W{}
+		w.Z(lastPG.finalSpec...)
+		w.Z(lastPG.finalPrio)
+		w.B(lastPG.listerFresh)
+		w.B(lastPG.err)
+		pgOpt(w, lastPG.before)
+		pgOpt(w, lastPG.after)
+		law(210, w.T, "")
 	}
 }
 
